@@ -784,6 +784,8 @@ def correspond(ctx, corr, model_ok):
                  'distinct entry list or byte string; non-trivial = non-empty')
     for msg in oracle_tables():
         corr.oracle_failures.append({'what': msg, 'kind': 'tables'})
+    corr.oracle_failures.extend(reuse_oracle())
+    corr.count('item objects used for more than one encode / decode', 30)
     corr.evaluations += 1
     lists = []
     for es in boundary_lists(rng, ctx.thorough):
@@ -854,7 +856,7 @@ KNOWN = {}
 def search(ctx, budget_s):
     t0 = time.time()
     rng = ctx.rng
-    out = [{'what': m, 'kind': 'tables'} for m in oracle_tables()]
+    out = [{'what': m, 'kind': 'tables'} for m in oracle_tables()] + reuse_oracle()
     while time.time() - t0 < budget_s and not out:
         lists = []
         for es in boundary_lists(rng):
@@ -904,6 +906,8 @@ def _unjson(x):
 
 def replay(obj):
     case = obj['case']
+    if case.get('kind') == 'reuse':
+        return bool(reuse_oracle())
     if case.get('kind') == 'tables':
         bad = oracle_tables()
         for m in bad:
@@ -929,3 +933,69 @@ if __name__ == '__main__':
     _jobs = pickle.loads(sys.stdin.buffer.read())
     _res = run_jobs(_jobs)
     sys.stdout.buffer.write(pickle.dumps((backend_name(), _res)))
+
+
+# ---------------------------------------------------------------------------------------------
+# the item OBJECTS are reusable values: what an item encodes to is a function of its current fields — not of what it encoded to or
+# was parsed from before
+
+def reuse_oracle():
+    from rsocket.extensions import helpers as H
+    from rsocket.extensions.routing import RoutingMetadata
+    from rsocket.extensions.tagging import TaggingMetadata
+    from rsocket.extensions.authentication import AuthenticationSimple, AuthenticationBearer
+    from rsocket.extensions.authentication_content import AuthenticationContent
+    from rsocket.extensions.stream_data_mimetype import StreamDataMimetype, StreamDataMimetypes
+    from rsocket.extensions.composite_metadata import CompositeMetadata
+    from rsocket.extensions.mimetypes import WellKnownMimeTypes
+    out = []
+
+    def bad(what):
+        out.append({'what': 'item object reused: ' + what, 'kind': 'reuse'})
+    # 1. the same routing item sent with two different tag lists
+    for make in (lambda tags: H.route(*tags), lambda tags: RoutingMetadata(tags),
+                 lambda tags: TaggingMetadata(WellKnownMimeTypes.MESSAGE_RSOCKET_ROUTING, tags)):
+        for t1, t2 in (([b'orders.create'], [b'orders.cancel']), ([b'a', b'b'], [b'c']), ([b'x'], []), ([], [b'y', b'z'])):
+            item = make(list(t1))
+            first = bytes(item.serialize())
+            item.tags = list(t2)
+            second = bytes(item.serialize())
+            fresh = bytes(make(list(t2)).serialize())
+            if second != fresh or first != bytes(make(list(t1)).serialize()):
+                bad('routing item with tags %r then %r encodes the second time as %r, a fresh item as %r' % (t1, t2, second, fresh))
+            dec = make([])
+            dec.parse(first)
+            dec.parse(fresh)
+            if [bytes(x) if not isinstance(x, str) else x.encode() for x in dec.tags] != list(t2) or bytes(dec.serialize()) != fresh:
+                bad('routing decoder used for %r then %r holds %r and re-encodes %r' % (first, fresh, dec.tags, bytes(dec.serialize())))
+    # 2. serialize - parse other bytes - serialize, for the typed items whose parse REPLACES their content (the list-valued ones —
+    #    accepted MIME types, composite — append by design)
+    pairs = [
+        (lambda: H.data_mime_type(b'text/plain'), lambda: H.data_mime_type(b'application/x-other')),
+        (lambda: H.authenticate_simple('user', 'pw'), lambda: H.authenticate_simple('another-user', 'secret')),
+        (lambda: H.authenticate_bearer('token-1'), lambda: H.authenticate_bearer('second-token')),
+    ]
+    for mk_a, mk_b in pairs:
+        a = mk_a()
+        ea = bytes(a.serialize())
+        eb = bytes(mk_b().serialize())
+        a.parse(eb)
+        again = bytes(a.serialize())
+        if again != eb:
+            bad('%s serialized (%r), then parsed %r, re-encodes as %r' % (type(a).__name__, ea, eb, again))
+    # 3. a composite used for two requests
+    c1 = H.composite(H.route('first.route'), H.authenticate_bearer('t'))
+    c2 = H.composite(H.route('second.route'), H.authenticate_bearer('t'))
+    cm = CompositeMetadata()
+    cm.parse(c1)
+    r1 = bytes(cm.serialize())
+    cm2 = CompositeMetadata()
+    cm2.parse(c1)
+    cm2.items.clear() if hasattr(cm2, 'items') else None
+    cm2.parse(c2)
+    if r1 != bytes(c1):
+        bad('composite re-encodes %r as %r' % (bytes(c1), r1))
+    tail = bytes(cm2.serialize())
+    if not tail.endswith(bytes(c2)):
+        bad('composite decoder used for a second request re-encodes %r, the second request was %r' % (tail, bytes(c2)))
+    return out
